@@ -296,7 +296,7 @@ def layouts_untouched_bounded_instance():
     from pb_bss.math import solve as ms
 
     FN = ['psd', 'gev', 'gev-eig', 'pca', 'mvdr', 'souden', 'wmwf', 'lcmv', 'ban', 'phase', 'apply', 'bf-gev', 'bf-rank1', 'masks', 'si_sdr', 'sxr', 'stable_solve',
-          'vuv', 'biased', 'from_cov', 'set_snr', 'bingham', 'set_snr', 'bingham']
+          'vuv', 'biased', 'from_cov', 'set_snr', 'bingham', 'set_snr', 'bingham', 'wmwf-fd', 'wmwf-csv', 'bf-wmwf-fd', 'souden-auto', 'cond', 'psd-nonorm']
 
     def make(B):
         return {'fn': B.choose('fn', FN), 'layout': B.choose('layout', ['C', 'F', 'H', 'strided']), 'ro': B.choose('ro', [False, True]),
@@ -358,6 +358,18 @@ def layouts_untouched_bounded_instance():
                 return bf.get_mvdr_vector_souden(tgt, noi, ref_channel=0)
             if fn == 'wmwf':
                 return bf.get_wmwf_vector(tgt, noi, reference_channel=1)
+            if fn == 'wmwf-fd':
+                return bf.get_wmwf_vector(tgt, noi, reference_channel=0, distortion_weight='frequency_dependent')
+            if fn == 'wmwf-csv':
+                return bf.get_wmwf_vector(tgt, noi, channel_selection_vector=np.abs(atf), distortion_weight=0.5)
+            if fn == 'bf-wmwf-fd':
+                return bw.get_bf_vector('wmwf+ban', tgt, noi, distortion_weight='frequency_dependent')
+            if fn == 'souden-auto':
+                return bf.get_mvdr_vector_souden(tgt, noi)
+            if fn == 'cond':
+                return bf.condition_covariance(tgt, 0.25)
+            if fn == 'psd-nonorm':
+                return bf.get_power_spectral_density_matrix(obs, mask, normalize=False)
             if fn == 'lcmv':
                 return bf.get_lcmv_vector(np.stack([atf, w]), np.array([1.0, 0.0]), noi)
             if fn == 'ban':
@@ -421,7 +433,7 @@ def layouts_untouched_bounded_instance():
         yield 'arguments-bit-identical-afterwards', not out['changed']
         yield 'repeated-call-reproduces-the-result', bool(out['same'])
 
-    return Instance('C20', 'pb_bss:public-entry-points', 'bounded-memory-layouts-untouched', make, call, ensures, mode='bounded', bounded_n=200, frame=False)
+    return Instance('C20', 'pb_bss:public-entry-points', 'bounded-memory-layouts-untouched', make, call, ensures, mode='bounded', bounded_n=300, frame=False)
 
 
 def instances(tier):
